@@ -4,3 +4,5 @@ import WireV.Acyclic
 import WireV.Solve
 import WireV.Sets
 import WireV.Driver
+import WireV.Emit
+import WireV.Sig
